@@ -30,6 +30,28 @@ type c35Mon struct {
 	writes  int
 	after   int // writes observed after a restart of that node
 	gen     map[int]int
+	nesting bool
+	nested  int
+}
+
+// BeforeStore: when a snapshot is about to be stored while the node's
+// sequence lock is free, other chain loops of the same node could run at
+// this very point; the simulator lets them (nested stepping at the Store-call
+// boundary). With the lock held this interleaving does not exist.
+func (m *c35Mon) BeforeStore(n *cluster.SNode, call *cluster.StoreCall) {
+	if call.Name != "WriteSnapshot" || m.nesting || n.Node == nil || !n.Node.SimTopoUnlocked() {
+		return
+	}
+	snap := snapArg(call)
+	var others []crypto.Hash
+	for _, id := range n.Node.SimChainIDs() {
+		if id != snap.NodeId {
+			others = append(others, id)
+		}
+	}
+	m.nesting = true
+	m.nested += m.r.c.PollChainsNested(n, others)
+	m.nesting = false
 }
 
 func (m *c35Mon) AfterStore(n *cluster.SNode, call *cluster.StoreCall) {
@@ -165,6 +187,7 @@ func c35ClusterExec(p *harness.Plan) *harness.Outcome {
 	r.out.Probes["cluster_positions_assigned"] += mon.writes
 	r.out.Probes["cluster_positions_assigned_after_restart"] += mon.after
 	r.out.Probes["cluster_listed_entries_checked"] += checked
+	r.out.Probes["cluster_writes_outside_sequence_lock_interleaved"] += mon.nested
 	relabelPanic(r, "C35")
 	return r.finish(mon.writes > 0 && checked > 0, map[string]any{"rig": "cluster", "writes": mon.writes, "after_restart": mon.after, "listed": checked})
 }
